@@ -22,7 +22,7 @@ def files(rng, tier):
     for i in range(6 if tier == "quick" else 24):
         trs = readcheck.small_tracks(rng, maxn=6)
         # every third movie: a box in front of ftyp (signature box / free box of a size that lets a cut fall inside ftyp past the top-level size check)
-        lead = [isogen.Box("jP  ", [isogen.Raw(b"\r\n\x87\n")])] if i % 6 == 2 else [isogen.Box("free", [isogen.Raw(b"\0" * rng.choice([0, 4, 16, 40]))])] if i % 3 == 2 else []
+        lead = [isogen.Box("jP  ", [isogen.Raw(b"\r\n\x87\n")])] if i % 6 == 2 else [isogen.Box("free", [isogen.Raw(b"\0" * rng.choice([16, 40, 100]))])] if i % 3 == 2 else []
         r, _, nodes = isogen.build_movie(trs, "moov_first" if i % 2 == 0 else "mdat_first", udta=udta if i % 3 == 0 else None, lead=lead)
         if i % 2 == 1:
             # movie header last: shuffle the children of every container (any table may then be the last bytes of the file)
